@@ -24,6 +24,10 @@ Verdict ==
    complete |-> (S(Cur.ref) \cap S(Cur.tgt)) \subseteq (S(Cur.gin) \cup S(Cur.gout) \cup S(Cur.gconst) \cup S(Cur.ginter)),
    \* (a signature input that is also an output is filed once, under inputs)
    filed    |-> S(Cur.gin) = S(Cur.ins) /\ S(Cur.gout) = S(Cur.outs) \ S(Cur.ins) /\ S(Cur.gconst) = S(Cur.consts),
+   \* reading the result (get_all_tensor_results(), save() twice) left the four groups as they were, the flat view holds every
+   \* grouped tensor, and the saved file holds the same four groups
+   reads    |-> /\ Cur.stable /\ Cur.savedok
+                /\ (S(Cur.gin) \cup S(Cur.gout) \cup S(Cur.gconst) \cup S(Cur.ginter)) \subseteq S(Cur.flat),
    values   |-> \A k \in 1..Len(Cur.valok) : Cur.valok[k],
    selfzero |-> Cur.self => \A k \in 1..Len(Cur.iszero) : Cur.iszero[k]]
 
